@@ -17,7 +17,7 @@ claim("C03", "model_checking",
       "Every feasible path of the real Matryoshka.calculate_target_power/_calc_target_power/drop_old_proposals is explored for <=2 live proposals with every "
       "power, bound, None pattern, creation time and loop time symbolic; z3 proves on each path that the target is inside the inclusion bounds and outside the "
       "exclusion zone, equals the target of a fresh instance fed only the live proposals (other arrival order, replaced proposals, equal priorities with colliding hash slots), "
-      "and that expiry at 60 s is exact. 2 proposals exhaustive, 3 budgeted in thorough.", TRUST, "DESIGN.md section 4 C03")
+      "and that expiry at 60 s is exact, also with two component groups served by one instance. 2 proposals exhaustive, 3 budgeted in thorough.", TRUST, "DESIGN.md section 4 C03")
 claim("C04", "model_checking",
       "Relational check between three pieces of the real code (_calc_target_power, get_status, _Report.adjust_to_bounds) under a declaratively stated conflict-free precondition: "
       "the target is the admissible value closest to the lowest-priority preference, the reported bounds are the declared intersection carved by the exclusion zone, "
@@ -30,7 +30,7 @@ claim("C06", "model_checking",
       TRUST + "; other interleavings are covered by a Kahn-network argument that is stated, not checked", "DESIGN.md section 4 C06")
 claim("C07", "model_checking",
       "Resampler.__init__/_calculate_window_end executed with symbolic now, align_to and period (non-linear integer arithmetic): alignment, range and the hand-set timer start are proved; "
-      "the real resample() tick loop is run with a stand-in timer yielding arbitrary symbolic drifts, series added while running (between ticks and while the tick's gather is pending), a failing sink, a sink blocking for several periods; align_to also as concrete aware datetimes in non-UTC zones.", TRUST + "; the real frequenz.channels Timer is replaced by a stand-in with the TriggerAllMissed contract",
+      "the real resample() tick loop is run with a stand-in timer yielding arbitrary symbolic drifts, series added while running (between ticks and while the tick's gather is pending), a failing sink, a sink blocking for several periods; align_to also as concrete aware datetimes in non-UTC zones; concrete timelines with align_to centuries away and in a zone with DST changes (real datetime/tzinfo semantics).", TRUST + "; the real frequenz.channels Timer is replaced by a stand-in with the TriggerAllMissed contract",
       "DESIGN.md section 4 C07")
 claim("C08", "model_checking",
       "The real _ResamplingHelper/_StreamingHelper are run with symbolic sample timestamps, validity kinds and tick time; a recording resampling function shows exactly which samples were "
@@ -45,7 +45,7 @@ claim("C10", "model_checking",
 claim("C11", "model_checking",
       "The real PowerManagingActor handlers (_send_updated_target_power, _send_reports, bounds update, PartialFailure resend, expiry) are applied for every event sequence of bounded length with "
       "all powers and bounds symbolic, both by calling the handlers and by feeding the real _run select loop / _bounds_tracker task over real channels (late PartialFailure, expiry by the real timer); after every request z3 proves request = regular target + operating-point target as reported and request inside the latest bounds.", TRUST, "DESIGN.md section 4 C11")
-claim("C12", "translation_validation", TV + ". All 2609 topologies with <=7 components from a grammar (quick; <=8 thorough) x 3 evaluation modes (no fallback, fallback configured with valid primaries, primaries replaced by "
+claim("C12", "translation_validation", TV + ". All 2609 topologies with <=7 components from a grammar (plus 21 with batteries sharing inverters) (quick; <=8 thorough) x 3 evaluation modes (no fallback, fallback configured with valid primaries, primaries replaced by "
       "their generated fallback formulas); 8 identities per topology over symbolic device powers and unmetered loads; additionally on graph objects that held another topology before (all formulas generated, all predicates queried) and were refreshed with refresh_from().", TRUST, "DESIGN.md section 4 C12")
 claim("C13", "translation_validation", TV + ". Per input the kind (finite, None, NaN, +inf, -inf) and the nones_are_zeros flags are symbolic choices, so every combination is explored for every program with <=2 operands "
       "(<=3 thorough); a round without output sample is a violation.", TRUST, "DESIGN.md section 4 C13")
@@ -58,7 +58,7 @@ claim("C15", "model_checking",
       "6-way outcome per set_power call (incl. slow success and timeout); z3 proves succeeded + failed + excess = request, failed_power = sum of failed set-points, component sets, and calls = distribution; two concurrent PV requests for disjoint inverter sets on one manager.", TRUST, "DESIGN.md section 4 C15")
 claim("C16", "model_checking",
       "The real BatteryStatusTracker._run dispatch loop and BlockingStatus are driven through a stand-in select/Timer with a symbolic clock: for every sequence of <=4 events (messages with symbolic age and fault, "
-      "timers, set-power results) the sent status equals a reference (never usable while a disqualifying fact holds; exponential blocking; notify on change only); ComponentPoolStatusTracker._update_status over every sequence of 4 notifications.", TRUST + "; stand-in timer contract stated in evidence", "DESIGN.md section 4 C16")
+      "timers, set-power results) the sent status equals a reference (never usable while a disqualifying fact holds; exponential blocking; notify on change only); ComponentPoolStatusTracker._update_status over every sequence of 4 notifications, and the real pool tracker (real constructor and channels, probe trackers) over 3 set-power outcomes published back to back or spaced.", TRUST + "; stand-in timer contract stated in evidence", "DESIGN.md section 4 C16")
 claim("C17", "model_checking",
       "One symbolic data set is given to both real code paths (PowerBoundsCalculator.calculate and BatteryManager._get_bounds/_check_request): z3 proves that every power admitted by the advertised bounds is "
       "accepted for both adjust_power settings, that inclusion bounds are identical and that an admitted power is at least the sum of the groups' minimum powers. 5 topologies exhaustive.", TRUST, "DESIGN.md section 4 C17")
@@ -67,4 +67,4 @@ claim("C18", "model_checking",
       "monotonicity and scale invariance are proved over non-linear real arithmetic; plus the fetcher's NaN dropping and SendOnUpdate's cache eviction.", TRUST, "DESIGN.md section 4 C18")
 claim("C19", "model_checking",
       "The real MetricFetcher inside a real formula on a virtual-time loop, with a fake FallbackMetricFetcher subclass: validity of every primary/fallback sample, per-round delivery order and the point at which "
-      "the primary stream is closed are symbolic; every output is compared with the documented switching rule; a formula with a second plain term exposes misalignment; delivery lock-step, fallback 1-2 rounds early, in pairs, or as an initial burst; also with the real FallbackFormulaMetricFetcher over a real fallback engine, and end to end through the real formula generators (grid, grid reactive, PV, battery, producer power with allow_fallback) on a real component graph with the harness as resampling actor serving different symbolic values per (component, metric).", TRUST, "DESIGN.md section 4 C19")
+      "the primary stream is closed are symbolic; every output is compared with the documented switching rule; a formula with a second plain term exposes misalignment; delivery lock-step, fallback 1-2 rounds early, in pairs, or as an initial burst; missing samples as None or NaN-valued; the primary closed within a round or between rounds, or raising a plain ReceiverError; also with the real FallbackFormulaMetricFetcher over a real fallback engine, and end to end through the real formula generators (grid, grid reactive, PV, battery, producer power with allow_fallback) on a real component graph with the harness as resampling actor serving different symbolic values per (component, metric).", TRUST, "DESIGN.md section 4 C19")
